@@ -77,6 +77,8 @@ def parse_scheds(r, ndest):
 CONCS = [  # (x, y, delimiter) byte values; the first uses the tool's default delimiter
     (ord("x"), ord("y"), 10), (0, 255, ord(",")), (10, 13, 255), (ord(" "), ord("\t"), ord("a")),
     (ord(","), 10, ord(" ")), (254, 1, 13), (ord("x"), ord("x"), ord("|")),
+    # the default delimiter again, with bytes next to it that line-oriented readers like to treat specially
+    (ord("x"), 13, 10), (13, 0, 10),
 ]
 
 
@@ -98,11 +100,15 @@ def tonsq_cases(ctx, asis, fixed):
             add(i, CONCS[rng.randrange(len(CONCS))], 1 + rng.randrange(2))
         for i in rng.sample(inputs, 60):                        # other byte values / delimiters on short ones too
             add(i, CONCS[1 + rng.randrange(len(CONCS) - 1)], 1 + rng.randrange(2))
+        for i in inputs:
+            if 1 <= len(i) <= 4:                                # CR / NUL around the default delimiter
+                add(i, CONCS[7 + len(cases) % 2], 1)
         nlong = 14
     else:
         for i in inputs:                                        # all 3280 inputs: default delimiter and another one
             add(i, CONCS[0], 1 + (len(cases) % 2))
             add(i, CONCS[1 + rng.randrange(len(CONCS) - 1)], 1 + rng.randrange(2))
+            add(i, CONCS[7 + len(cases) % 2], 1)
         nlong = 60
     for i in rng.sample([i for i in inputs if 2 <= len(i) <= 5], 6):   # the throttled loop (--rate)
         add(i, CONCS[0], 1, rate=200)
